@@ -40,7 +40,7 @@ def run(ctx):
     ctx.floor("R1", "onig match calls in regex.rs", n_match, 1)
     mf = ctx.fn("R1", C.matcher_impl(R + "RegexMatcher", "matches"))
     if mf is not None:
-        o = prim.origin_of_local(mf, 0).strip()
+        o = prim.expand_single_def_vars(mf, prim.origin_of_local(mf, 0)).strip()
         alts = [a.strip() for a in prim.flatten_phi(o)]
         eqs = [a for a in alts if a.k == "call" and a.a["name"] == "eq"]
         rest = [a for a in alts if a not in eqs]
@@ -334,7 +334,8 @@ def _escapes_unmatched_close(prog, hf):
     is_zero = lambda x: x.strip().k == "const" and x.strip().a.get("v") == 0
     anyo = lambda x: True
     at_c = prim.atom_holds(atoms, "eq", anyo, is_close)
-    at_z = prim.atom_holds(atoms, "eq", lambda x: x.strip().k == "var", is_zero)
+    at_z = prim.atom_holds(atoms, "eq", lambda x: x.strip().k == "var", is_zero) or \
+        prim.atom_holds(atoms, "lt", lambda x: x.strip().k == "var", lambda x: x.strip().k == "const" and x.strip().a.get("v") == 1)
     if at_c is None or at_z is None:
         return False, "the escaped ')' is written under %s; oracle: character == ')' and open-group count == 0" % prim.guards_fmt(prim.dominating_guards(hf, lit_sites[0]))[:200]
     cnt = (at_z["a"] if at_z["a"].strip().k == "var" else at_z["b"]).strip().a.get("local")
@@ -348,6 +349,10 @@ def _escapes_unmatched_close(prog, hf):
             if core.a.get("v") != 0:
                 return False, "the count starts at %r" % core.a.get("v")
             continue
+        if core.k == "variant" and core.kids and (lambda cs: cs.k == "call" and cs.a["name"] == "checked_sub" and [x.get("v") for x in cs.consts()] == [1])(core.kids[0].strip()):
+            # `cnt = cnt.checked_sub(1)` taken on its Some side: a decrement that cannot wrap
+            cs_ = core.kids[0].strip()
+            core = prim.Origin("bin", "Sub", cs_.kids, core.bb)
         if core.k == "bin" and [x.get("v") for x in core.consts()] == [1]:
             ats = prim.norm_guards(prim.dominating_guards(hf, bb))
             lits = [a_["b"].strip().a.get("v") for a_ in ats if a_["rel"] == "eq" and a_["b"].strip().k == "const" and a_["b"].strip().a.get("k") in ("char", "int") and isinstance(a_["b"].strip().a.get("v"), (str, int)) and a_["a"].fmt() == (at_c["a"] if not is_close(at_c["a"]) else at_c["b"]).fmt()]
